@@ -98,7 +98,7 @@ func RunCheck(o CheckOpts) int {
 	inWork := map[string]bool{}
 	for _, key := range w.Contracts.Order {
 		fc := w.Contracts.Funcs[key]
-		if fc.Trusted {
+		if fc.Trusted || strings.HasPrefix(fc.Name, "interface ") {
 			continue
 		}
 		if contractMentions(fc, o.Prop) {
@@ -139,7 +139,7 @@ func RunCheck(o CheckOpts) int {
 			abstracted[key] = e.abstracted
 		}
 		for ck := range e.calleeUsed {
-			if c := w.Contracts.Funcs[ck]; c != nil && !c.Trusted && !inWork[ck] {
+			if c := w.Contracts.Funcs[ck]; c != nil && !c.Trusted && !inWork[ck] && !strings.HasPrefix(c.Name, "interface ") {
 				inWork[ck] = true
 				work = append(work, ck)
 			}
